@@ -271,7 +271,8 @@ def gen_decimal(dt, rng, n):
     for f in (1.1, 0.1, 2.675, 1e-9, 123.456, 0.30000000000000004):
         items.append(Item(f, dom_of(Fraction(f), False), 'float', expected=fmt_fixed_independent(Fraction(f), frac)))
     for v, note in ((Decimal('-0'), 'negative-zero-decimal'), ('-0', 'negative-zero-str'), ('-0.0', 'negative-zero-str'), (-0.0, 'negative-zero-float'),
-                    (Decimal('-0E-20'), 'negative-zero-decimal'), ('-0.000000000000000000000001', 'negative-rounds-to-zero')):
+                    (Decimal('-0E-20'), 'negative-zero-decimal'), ('-0.' + '0' * (frac + 3) + '1', 'negative-rounds-to-zero')):
+        # the last one lies below half a unit of the last fractional digit the type keeps, whatever that digit is
         items.append(Item(v, 'in' if 'rounds' not in note else 'round', note, expected=fmt_fixed_independent(Fraction(0), frac)))
     items.append(Item(True, 'skip', 'bool', expected=fmt_fixed_independent(Fraction(1), frac)))
     for v, note in [(float('nan'), 'nan'), (float('inf'), 'inf'), (Decimal('NaN'), 'decimal-nan'), (Decimal('-Infinity'), 'decimal-inf'), (DT.datetime(2020, 1, 1), 'datetime')] + GARBAGE_COMMON:
@@ -670,6 +671,35 @@ def writer_path(dt, value):
     return ('ok', got[0] if got else None)
 
 
+def writer_path_two(dt1, v1, dt2, v2):
+    """two event types of ONE ontology with a same-named property of different data types, repaired one after the other"""
+    from edxml import EDXMLWriter, EDXMLEvent, EDXMLPullParser
+    from edxml.error import EDXMLEventValidationError
+    import ontolib as OL
+    onto = OL.load_element(OL.ONTO(object_types=[OL.OT('o1', dt1), OL.OT('o2', dt2)],
+                                   event_types=[OL.ET('ta', [OL.PROP('v', 'o1')]), OL.ET('tb', [OL.PROP('v', 'o2')])], sources=[OL.SOURCE('/s/')]))
+    out = io.BytesIO()
+    try:
+        w = EDXMLWriter(out)
+        w.enable_auto_repair_normalize('ta', ['v'])
+        w.enable_auto_repair_normalize('tb', ['v'])
+        w.add_ontology(onto)
+        w.add_event(EDXMLEvent({'v': [v1]}, 'ta', '/s/'))
+        w.add_event(EDXMLEvent({'v': [v2]}, 'tb', '/s/'))
+        w.close()
+    except EDXMLEventValidationError:
+        return ('reject',)
+    except Exception as e:
+        return ('escapes', type(e).__name__)
+    got = []
+
+    class P(EDXMLPullParser):
+        def _parsed_event(self, e):
+            got.append(sorted(e.get_properties().get('v', [])))
+    P().parse(io.BytesIO(out.getvalue()))
+    return ('ok', got)
+
+
 def coercion_checks(ck, rng):
     """to_edxml_object: implicit coercion on assignment to XML-backed events keeps the value"""
     from edxml import EventElement
@@ -857,6 +887,23 @@ def main(argv):
                 ck.oracle_failures.append({'signature': 'writer-repair/%s/differs-from-normalize_objects' % family_of(dt),
                                            'input': {'data_type': dt, 'value': describe(v), 'path': 'EDXMLWriter.enable_auto_repair_normalize'},
                                            'observed': 'writer produced %r, normalize_objects %r' % (got, o)})
+    # ... also when two event types of one ontology name their property alike
+    repairable = {dt: [(v, o) for v, o in pairs if isinstance(v, str) and v != o and gate.accepts(dt, o) and not gate.accepts(dt, v)] for dt, pairs in per_type_ok.items()}
+    dts = sorted(dt for dt, l in repairable.items() if l)
+    for _ in range(ck.budget(25, 300)):
+        if len(dts) < 2:
+            break
+        dt1, dt2 = rng.sample(dts, 2)
+        (v1, o1), (v2, o2) = rng.choice(repairable[dt1]), rng.choice(repairable[dt2])
+        try:
+            got = writer_path_two(dt1, v1, dt2, v2)
+        except Exception as e:
+            continue          # the two object types do not make a loadable ontology
+        ck.cov['evaluations'] += 1
+        ck.dist('writer-path-two-types:' + got[0])
+        if got != ('ok', [[o1], [o2]]):
+            ck.oracle_failures.append({'signature': 'writer-repair/two-event-types-same-property-name', 'input': {'data_types': [dt1, dt2], 'values': [describe(v1), describe(v2)]},
+                                       'observed': 'writer produced %r, normalize_objects gives %r and %r' % (got, o1, o2)})
     for dt in ('number:int', 'boolean', 'base64:0', 'datetime'):
         for v in ('x', '!', 'YW=I'):
             got = writer_path(dt, v)
